@@ -251,6 +251,9 @@ func genC06(r *rand.Rand, tier string, idx int) []string {
 	case 31, 32:
 		return genC06Capacity(g)
 	}
+	if idx%4 == 2 {
+		return genC06Perm(g)
+	}
 	maxOps := 36
 	if tier == "thorough" {
 		maxOps = 90
@@ -356,7 +359,8 @@ func genC06Capacity(g *c06gen) []string {
 }
 
 // exhaustive small scope: every sequence of up to L symbols over
-// {commit-with-write X, commit-without-write X, lookup at X} for the tree A <- B <- C, A <- D and one key
+// {commit-with-write X, commit-without-write X, commit-with-removal X, lookup at X} for the tree A <- B <- C, A <- D and
+// one key (commits in every order: children before parents, gaps filled later, removals of a key the cache never saw)
 func exhC06(tier string, emit func([]string)) {
 	depth := 3
 	if tier == "thorough" {
@@ -364,40 +368,39 @@ func exhC06(tier string, emit func([]string)) {
 	}
 	blocks := []struct{ h, p string }{{"A", "-"}, {"B", "A"}, {"C", "B"}, {"D", "A"}}
 	type sym struct {
-		kind int
+		kind int // 0 write, 1 empty, 2 lookup, 3 removal
 		blk  int
 	}
 	var syms []sym
-	for k := 0; k < 3; k++ {
+	for k := 0; k < 4; k++ {
 		for b := range blocks {
 			syms = append(syms, sym{k, b})
 		}
 	}
 	var rec func(cur []sym)
 	rec = func(cur []sym) {
-		if len(cur) > 0 {
+		if len(cur) > 0 && cur[len(cur)-1].kind == 2 {
 			var ops []string
 			nh := 0
-			lookups := 0
 			for _, s := range cur {
 				b := blocks[s.blk]
 				switch s.kind {
-				case 0, 1:
+				case 0, 1, 3:
 					nh++
 					id := fmt.Sprintf("b%d", nh)
 					ops = append(ops, fmt.Sprintf("blk %s %s %s", id, b.h, b.p))
 					if s.kind == 0 {
 						ops = append(ops, fmt.Sprintf("bset %s k %02x%02x", id, 0xa0+s.blk, nh))
 					}
+					if s.kind == 3 {
+						ops = append(ops, fmt.Sprintf("txn t%d %s", nh, id), fmt.Sprintf("trem t%d k", nh), fmt.Sprintf("tcommit t%d", nh))
+					}
 					ops = append(ops, "bcommit "+id)
 				default:
 					ops = append(ops, "sget k "+b.h)
-					lookups++
 				}
 			}
-			if lookups > 0 && cur[len(cur)-1].kind == 2 {
-				emit(ops)
-			}
+			emit(ops)
 		}
 		if len(cur) == depth {
 			return
@@ -409,10 +412,87 @@ func exhC06(tier string, emit func([]string)) {
 	rec(nil)
 }
 
+// a block tree whose blocks are all built first (writes and removals, directly and through transactions, of keys the
+// cache may never have seen) and then committed in an arbitrary permutation — children before parents, gaps filled
+// later — with lookups at every layer interleaved and a full sweep (every key at every block) at the end
+func genC06Perm(g *c06gen) []string {
+	r := g.r
+	n := 3 + r.Intn(6)
+	type pb struct{ bid, hash, prev string }
+	var bs []pb
+	for i := 0; i < n; i++ {
+		hash := fmt.Sprintf("p%d", i+1)
+		prev := "-"
+		if i > 0 {
+			switch x := r.Intn(10); {
+			case x < 6:
+				prev = bs[i-1].hash // chain
+			case x < 9:
+				prev = bs[r.Intn(i)].hash // fork
+			default:
+				prev = "px" // never committed
+			}
+		}
+		b := pb{fmt.Sprintf("b%d", i+1), hash, prev}
+		bs = append(bs, b)
+		g.emit("blk %s %s %s", b.bid, b.hash, b.prev)
+		for _, k := range g.keys {
+			switch r.Intn(6) {
+			case 0, 1:
+				g.emit("bset %s %s %s", b.bid, k, g.val())
+			case 2:
+				g.nt++
+				g.emit("txn t%d %s", g.nt, b.bid)
+				g.emit("trem t%d %s", g.nt, k)
+				g.emit("tcommit t%d", g.nt)
+			case 3:
+				g.nt++
+				g.emit("txn t%d %s", g.nt, b.bid)
+				g.emit("tset t%d %s %s", g.nt, k, g.val())
+				if r.Intn(2) == 0 {
+					g.emit("tcommit t%d", g.nt)
+				}
+			}
+		}
+	}
+	look := func() {
+		b := bs[r.Intn(n)]
+		k := g.key()
+		switch r.Intn(5) {
+		case 0:
+			g.emit("qget %s %s", b.hash, k)
+		case 1:
+			g.emit("bget %s %s", b.bid, k)
+		case 2:
+			// a fresh child context of the block
+			g.nb++
+			g.emit("blk c%d c%d %s", g.nb, g.nb, b.hash)
+			g.emit("bget c%d %s", g.nb, k)
+		default:
+			g.emit("sget %s %s", k, b.hash)
+		}
+	}
+	perm := r.Perm(n)
+	for _, i := range perm {
+		if r.Intn(8) != 0 { // sometimes a block is never committed
+			g.emit("bcommit %s", bs[i].bid)
+		}
+		for j, m := 0, r.Intn(3); j < m; j++ {
+			look()
+		}
+	}
+	for _, k := range g.keys {
+		for _, b := range bs {
+			g.emit("sget %s %s", k, b.hash)
+		}
+	}
+	return g.ops
+}
+
 func init() {
 	register(&Suite{
 		Name: "c06",
-		Rule: "random histories over block trees with forks, gaps, duplicate and late parents, cycles, out-of-order commits, removals, abandoned transactions/blocks, lookups at old/sibling/tip blocks at all four layers; chains of 1999..2100 blocks crossing maxHisDepth; sibling fans around the per-key capacity; exhaustive sequences over a 4-block tree; oracle = ancestor-chain answer from the harness's own record of the committed tree; non-trivial = at least one hit answered by a proper ancestor or by a pending layer",
+		Rule: "random histories over block trees with forks, gaps, duplicate and late parents, cycles, out-of-order commits, removals, abandoned transactions/blocks, lookups at old/sibling/tip blocks at all four layers; chains of 1999..2100 blocks crossing maxHisDepth; sibling fans around the per-key capacity; block trees built first and committed in an arbitrary permutation (children before parents, removals of never-seen keys); exhaustive sequences of commit-with-write / -without / -with-removal / lookup over a 4-block tree; oracle = ancestor-chain answer from the harness's own record of the committed tree; non-trivial = at least one hit answered by a proper ancestor or by a pending layer",
 		Gen:  genC06,
 		Run: func(ops []string) CaseResult {
 			return runSCSeq(ops, false, false, func(w *scWorld) bool { return w.ancestorHits+w.layerHits > 0 })
